@@ -118,6 +118,12 @@ func NewPacketDslParserByContent(data string) (*gen.PacketDslParser, *antlr.Comm
 // error. The grammar's start rule does not end in EOF, so the generated parser stops silently at
 // the first token that cannot begin a definition and everything after it would be ignored.
 func ParseWholeInput(p *gen.PacketDslParser, listener *SyntaxErrorListener) gen.IPacketContext {
+	// characters no token rule matches are syntax errors too: by default the lexer only prints a
+	// note and drops them
+	if lexer, ok := p.GetTokenStream().GetTokenSource().(*gen.PacketDslLexer); ok {
+		lexer.RemoveErrorListeners()
+		lexer.AddErrorListener(listener)
+	}
 	tree := p.Packet()
 	if t := p.GetCurrentToken(); t != nil && t.GetTokenType() != antlr.TokenEOF && !listener.HasErrors() {
 		listener.SyntaxError(p, t, t.GetLine(), t.GetColumn(),
